@@ -21,7 +21,7 @@ from typing import Any, List
 from mc.core import HarnessError, digest
 from mc.explore import ExecResult, V
 from mc.harness import client_view, norm_msg, run_world
-from props import c03, c06, c07
+from props import c03, c05, c06, c07, c08
 
 ID = "C16"
 LEVEL = "model_checking"
@@ -40,8 +40,10 @@ BUDGET = {"quick": 300, "thorough": 1800}
 
 SETS = {
     "c03": (c03, 0),
+    "c05": (c05, 0),
     "c06": (c06, 0),
     "c07": (c07, 1),
+    "c08": (c08, 0),
 }
 
 
@@ -55,6 +57,10 @@ def scenarios(tier: str) -> List[Any]:
                 continue
             if name == "c06" and tier == "quick" and len(p[1]) > 2:
                 continue
+            if name == "c05" and p[4] == "cancel":
+                continue  # raising the runtime's own cancellation exception is not comparable across runtimes
+            if name == "c08" and (p[2] != "win0" or p[3] > 4):
+                continue  # transport pause is modelled differently (asyncio buffers, trio blocks): excluded
             out.append((name, p))
     return out
 
@@ -140,6 +146,10 @@ def _short(name: str, p: tuple) -> str:
         return f"{p[1]}:{p[2]}:{p[3]}"
     if name == "c06":
         return f"{p[3]}:{'+'.join(p[1])}:max{p[2]}"
+    if name == "c05":
+        return f"{p[1]}:{p[2]}:k{p[3]}:{p[4]}"
+    if name == "c08":
+        return f"{p[1]}:{p[2]}:n{p[3]}:{p[4]}"
     return f"{p[0]}:{p[2]}:{p[3]}"
 
 
